@@ -24,7 +24,11 @@ Small == << <<"x">>, <<"1">>, <<"9","9","9","9","9","9","9","9","9","9","9","9",
             <<"let">>, <<"if">>, <<"else">>, <<"for">>, <<"in">>, <<"fn">>, <<"return">>, <<"break">>,
             <<"=">>, <<"!">>, <<"+">>, <<"-">>, <<"(">>, <<")">>, <<"LBR">>, <<"RBR">>, <<"[">>, <<"]">>, <<",">>, <<":">>, <<".">>,
             <<"PCT", ">">>, <<"<", "PCT">>, <<"<", "PCT", "=">>, <<"<", "PCT", "HASH">>, <<"t">>, <<"BSL">>, <<"BSL", "<">> >>
-Vocab == IF Vocabulary = "full" THEN Full ELSE Small
+\* the pieces paths and their uses are made of, spelled WITHOUT separators: names, calls, members, indexes, a loop head and its
+\* body, a let, an assignment
+Paths == << <<"a">>, <<"f", "(", ")">>, <<".", "b">>, <<"[", "0", "]">>, <<"(", ")">>, <<"(", "1", ")">>,
+            <<"for", " ", "(", "v", ")", " ", "in", " ">>, <<" ", "LBR", " ", "PCT", ">", "x", "<", "PCT", " ", "RBR", " ">>, <<"let", " ", "z", " ", "=", " ">>, <<" ", "=", " ", "1">> >>
+Vocab == IF Vocabulary = "full" THEN Full ELSE IF Vocabulary = "paths" THEN Paths ELSE Small
 
 VARIABLE toks      \* sequence of indices into Vocab
 vars == <<toks>>
@@ -46,5 +50,5 @@ Framings(body) ==
     nested   |-> <<"<", "PCT", " ">> \o body \o <<"<", "PCT", " ">>,
     text     |-> <<"a", "b">> \o body \o <<"<", "PCT", "=", " ", "1", " ", "PCT", ">">> \o body ]
 
-Emit == PrintT("CASE " \o ToJson([gen |-> "Soup", n |-> Len(toks), srcs |-> Framings(Spell(toks))]))
+Emit == PrintT("CASE " \o ToJson([gen |-> "Soup", n |-> Len(toks), srcs |-> Framings(IF Vocabulary = "paths" THEN Tight(toks) \o <<" ">> ELSE Spell(toks))]))
 =============================================================================
